@@ -28,6 +28,8 @@ func init() {
 			"NOT decided: device-chosen delays and segmentations, and that the expected-response regular expressions match what the device prints.",
 		Assumptions: []string{"regexp matching is opaque", "ReadUntilAnyPrompt returns only after one of the given patterns matched (C01/C05 cover its loop)"},
 		Mutants: []Mutant{
+			{ID: "C12-deescalate-eager", Desc: "deescalate sends its command eagerly", Rule: "C12/priv-steps-plain",
+				Edits: []Edit{{File: "driver/network/acquirepriv.go", Old: "\t_, err := d.Driver.Channel.SendInput(p.Deescalate)", New: "\t_, err := d.Driver.Channel.SendInput(p.Deescalate, func(o interface{}) error {\n\t\tif a, ok := o.(*channel.OperationOptions); ok {\n\t\t\ta.Eager = true\n\n\t\t\treturn nil\n\t\t}\n\n\t\treturn util.ErrIgnoredOption\n\t})"}}},
 			{ID: "C12-scan-disabled", Desc: "completion-pattern scan disabled", Rule: "C12/completion-gate",
 				Edits: []Edit{{File: "channel/sendinteractive.go", Old: "\t\t\t\tif p.Match(pb) {\n\t\t\t\t\tdone = true\n\n\t\t\t\t\tbreak\n\t\t\t\t}", New: "\t\t\t\tif p.Match(pb) {\n\t\t\t\t\tbreak\n\t\t\t\t}"}}},
 			{ID: "C12-type-ahead", Desc: "all inputs written before any response is awaited", Rule: "C12/pace",
@@ -54,6 +56,10 @@ func init() {
 }
 
 func runC12(c *Ctx, r *Report) {
+	r.Rule("C12/search-window", "expected-response and prompt searches look at a suffix of the buffer that starts on a line boundary (else a line tail ending in 'password:' makes the secret be typed unasked)", 4)
+	importObligations(r, func(sub *Report) { checkSearchDepth(c, sub) }, "C01/search-depth", "C12/search-window")
+	r.Rule("C12/priv-steps-plain", "escalate / deescalate send their command with no per-operation options (the send waits for the following prompt)", 2)
+	checkPrivStepsPlain(c, r, "C12/priv-steps-plain")
 	r.Rule("C12/pace", "per event: write input, echo read iff expected-response given and input visible, write return, read until the event's prompt; no next write before that read", 5)
 	r.Rule("C12/accumulate", "the returned dialogue is built from every echo read and every prompt read", 1)
 	r.Rule("C12/completion-gate", "completion patterns are matched against exactly the bytes of each prompt read (guarded only by not-last-event and list-not-empty) and a match leaves the loop without another write", 3)
